@@ -121,15 +121,31 @@ func printable(ch byte) bool { return min <= ch && ch <= max }
 //@   ensures len(result) >= 3
 //@   ensures __fresh(result)
 //@   ensures forall k int :: 0 <= k && k < len(result) ==> printable(result[k])
+//@   ensures result[0] == '&' && result[len(result)-1] == '-'
 //@   loop 0 vars (s1 []byte, b []byte)
 //@   loop 0 invariant len(s1) <= len(s) && (len(s1) < len(s) ==> len(b) >= 2)
 //@   loop 0 invariant __fresh(b)
 //@   loop 0 decreases len(s1)
 
+// lastOut: the last byte the encoder writes for a unit that ends with source
+// byte ch - the byte itself for plain ASCII, the closing '-' of "&-" or of a
+// base64 shift otherwise.
+//
+//@ pure
+func lastOut(ch byte) byte {
+	if printable(ch) && ch != '&' {
+		return ch
+	}
+	return '-'
+}
+
 // encoder.Transform obeys the transform.Transformer contract for every input,
 // chunking and buffer size: the counts stay within the buffers, everything
 // written is printable ASCII, success means the whole source was consumed,
 // and an incomplete trailing run of non-ASCII bytes is only encoded at EOF.
+// The consumed count never runs ahead of the output: the output ends with the
+// encoding of the last consumed source byte (so a short destination cannot
+// make a unit count as consumed before it was written).
 //
 //@ func (e *encoder) Transform(dst, src []byte, atEOF bool) (nDst, nSrc int, err error)
 //@   props C16
@@ -143,7 +159,9 @@ func printable(ch byte) bool { return min <= ch && ch <= max }
 //@   ensures err == transform.ErrShortSrc ==> !atEOF
 //@   ensures forall k int :: 0 <= k && k < nDst ==> printable(dst[k])
 //@   ensures !atEOF && len(src) > 0 && !printable(old(src[len(src)-1])) ==> err != nil
+//@   ensures nSrc > 0 ==> nDst > 0 && dst[nDst-1] == lastOut(old(src[nSrc-1]))
 //@   loop 0 vars (nDst1 int, nSrc1 int, i int)
+//@   loop 0 invariant nSrc1 > 0 ==> nDst1 > 0 && dst[nDst1-1] == lastOut(src[nSrc1-1])
 //@   loop 0 invariant 0 <= i && i <= len(src) && nSrc1 == i && 0 <= nDst1 && nDst1 <= len(dst)
 //@   loop 0 invariant forall k int :: 0 <= k && k < len(src) ==> src[k] == old(src[k])
 //@   loop 0 invariant !atEOF && i > 0 ==> printable(src[i-1]) || (i < len(src) && printable(src[i]))
@@ -155,11 +173,13 @@ func printable(ch byte) bool { return min <= ch && ch <= max }
 //@   loop 1 invariant forall k int :: 0 <= k && k < nDst1 ==> printable(dst[k])
 //@   loop 1 invariant forall k int :: 0 <= k && k < len(b) ==> printable(b[k])
 //@   loop 1 invariant __base(b) != __base(dst)
+//@   loop 1 invariant len(b) > 0 && b[len(b)-1] == lastOut(src[i-1])
+//@   loop 1 invariant idx >= 0 ==> nDst1 > 0 && dst[nDst1-1] == b[idx]
 //@   loop 1 invariant forall k int :: 0 <= k && k < len(src) ==> src[k] == old(src[k])
 //@   loop 1 invariant !atEOF ==> printable(src[i-1]) || (i < len(src) && printable(src[i]))
 //@   loop 1 decreases len(b) - idx
 //@   loop 2 vars (i int)
-//@   loop 2 invariant 0 < i && i <= len(src)
+//@   loop 2 invariant 0 < i && i <= len(src) && !printable(src[i-1])
 //@   loop 2 decreases len(src) - i
 
 // lemmaSameBytes restates an element-wise equality so that it can be used in
